@@ -18,3 +18,4 @@ def run(col, configs, tier):
         guarded(col, S.rule_flags_enforced, facts)
         guarded(col, X.rule_suffix_needs_digit, facts)
         guarded(col, X.rule_grammar_guards, facts)
+        guarded(col, X.rule_pattern_before_input, facts)
